@@ -25,7 +25,7 @@ from ..gen.lit import str_lit
 ID = "C23"
 LEVEL = "exploration"
 BUDGET = {"quick": 20, "thorough": 240}
-MEMCHECK = {"requests": 120, "stride": 20}    # thorough: valgrind memcheck over a sample of the workload
+MEMCHECK = {"requests": 300, "stride": 10}    # thorough: valgrind memcheck over a sample of the workload
 FLOOR = {"quick": 250, "thorough": 400}
 RULE = ("every accepted algorithm x plaintext lengths 0-96 (all residues mod 16, emphasis on 16k-1/16k/16k+1; "
         "a few up to 2048) with random / all-zero / all-0xff / text / padding-lookalike tails (..80, ..80 00, "
